@@ -458,7 +458,7 @@ def _replay_progress_node(case, acc, order):
 
 
 def tla_progress(ctx):
-    N, D = (2, 5) if ctx.thorough else (2, 4)
+    N, D = (3, 5) if ctx.thorough else (2, 4)
     cfg = ('CONSTANTS N = %d\n D = %d\nINIT Init\nNEXT Next\n'
            'INVARIANTS AnnounceOnlyAtMax ArmedBelowMax\n' % (N, D))
     wd = os.path.join(core.scratch_root(), 'tlc-progress')
@@ -485,11 +485,11 @@ def tla_progress(ctx):
 
 def explore(ctx):
     _CFG['max_regs'] = 3
-    _CFG['all_styles_upto'] = 3 if ctx.thorough else 2
+    _CFG['all_styles_upto'] = 3
     n, depth, fix = core.bfs(ctx, expand_bus, [((RefBus().key(), None), [])], sweep='19a-bus',
                              chunk=32)
     ctx.exhaustive = ctx.exhaustive and fix
-    _PCFG['N'] = 4 if ctx.thorough else 3
+    _PCFG['N'] = 6 if ctx.thorough else 4
     n2, d2, fix2 = core.bfs(ctx, expand_progress, [(((0, 0, True), None), [])], sweep='19b-progress',
                             chunk=8)
     ctx.exhaustive = ctx.exhaustive and fix2
